@@ -104,11 +104,15 @@ def main(ctx, replay=None):
     trace_meta = {sc: [] for sc in sched.SCENARIOS}
     proj_failed = 0
     noninj = 0
-    for sc_run in sched.SCENARIOS + ("neardeg",):
+    for sc_run in sched.SCENARIOS + ("neardeg", "endsame", "rearranged"):
         # "neardeg": three different strain fractions of which two are 3e-4 apart (relative) - different for the code's task equality
         # (numpy.allclose, rtol 1e-5), so the problem instance is the generic one
-        sc = "generic" if sc_run == "neardeg" else sc_run
+        # "endsame": two fraction FIELDS that agree at the first and the last volume and differ in between;
+        # "rearranged": two fields holding the same values in another order along the volume grid.  Different fields, different tasks.
+        sc = "generic" if sc_run in ("neardeg", "endsame", "rearranged") else sc_run
         case = draw_case(rng, nq=int(rng.integers(1, 4)), nat=int(rng.integers(1, 4)), low_t=False)
+        while sc_run in ("endsame", "rearranged") and len(case["v"]) < 3:
+            case = draw_case(rng, nq=int(rng.integers(1, 4)), nat=int(rng.integers(1, 4)), low_t=False)
         duck = DuckCalc(case)
         ntv = len(case["v"])
         strain = base_strain(rng, sc, ntv)
@@ -116,6 +120,25 @@ def main(ctx, replay=None):
             a, b = (0, 1) if rng.random() < 0.5 else (1, 2)
             strain[:, b] = strain[:, a] * (1.0 + 3e-4 * rng.uniform(0.8, 1.2, ntv))
             strain = strain / strain.sum(axis=1, keepdims=True)
+        if sc_run in ("endsame", "rearranged"):
+            a, b = (0, 1) if rng.random() < 0.5 else (1, 2)
+            c = 3 - a - b
+            for _try in range(200):
+                ea = rng.uniform(0.2, 0.4, ntv)
+                if sc_run == "endsame":
+                    eb = ea.copy()
+                    eb[1:-1] = ea[1:-1] + rng.choice([-1.0, 1.0], ntv - 2) * rng.uniform(0.03, 0.06, ntv - 2)
+                else:
+                    eb = ea[::-1].copy()
+                ec = 1.0 - ea - eb
+                st = numpy.empty((ntv, 3))
+                st[:, a], st[:, b], st[:, c] = ea, eb, ec
+                inner = slice(1, -1) if sc_run == "endsame" else slice(None)
+                # apart wherever they are meant to differ, and the third one apart from both everywhere
+                if (numpy.min(numpy.abs(ea - eb)[inner][numpy.abs(ea - eb)[inner] > 0], initial=1.0) > 2e-2 and numpy.any(numpy.abs(ea - eb)[inner] > 2e-2)
+                        and numpy.min(numpy.abs(ec - ea)) > 2e-2 and numpy.min(numpy.abs(ec - eb)) > 2e-2 and ec.min() > 0.05):
+                    strain = st
+                    break
         single = {}
         last_tl = [None]
 
@@ -136,7 +159,7 @@ def main(ctx, replay=None):
         if iso_full is not None:
             tensor_scale = max(float(numpy.max(numpy.abs(numpy.nan_to_num(numpy.asarray(v))))) for v in iso_full.values()) or 1.0
 
-        for sn, seq in enumerate(seqs if sc_run != "neardeg" else seqs[::2]):
+        for sn, seq in enumerate(seqs if sc_run in sched.SCENARIOS else seqs[::2]):
             nontrivial = len(seq) >= 2 or any(int(k[0]) >= 4 or int(k[1]) >= 4 for k in seq)
             ctx.count({"sc": sc_run, "seq": list(seq)}, nontrivial=nontrivial)
             # every third request goes to the task list of the previous request (resolve() on a used list starts over: Reset)
@@ -192,7 +215,7 @@ def main(ctx, replay=None):
                 traces[sc] += events
                 trace_meta[sc].append((len(traces[sc]), list(seq), info["projection"]))
         # (6) axis relabelling, on the full tensor
-        if sc_run != "neardeg":
+        if sc_run in sched.SCENARIOS:
             check_permutations(ctx, rng, sc, insts[sc], case, strain, run)
         ctx.sample({"scenario": sc_run, "request": list(seqs[min(3, len(seqs) - 1)]), "strain_row0": strain[0].tolist()})
 
